@@ -325,6 +325,9 @@ class StreamReaderBufferedProtocol(asyncio.BufferedProtocol):
     async def _wait_for_data(self, requester: str, external_buffer: WriteableBuffer) -> int | None: ...
 
     async def _wait_for_data(self, requester: str, external_buffer: WriteableBuffer | None) -> int | None:
+        if self.__read_waiter is not None:
+            raise RuntimeError(f"{requester}() called while another coroutine is already waiting for incoming data")
+
         if not (self.__buffer_nbytes_written or self.__eof_reached) and TaskUtils.current_task_is_polling(self.__loop):
             # A polling call with nothing to return: the cancellation of the scope is about to be delivered.
             # Wait for it at a bare checkpoint instead of a future, so that a cancellation requested by somebody else
